@@ -145,8 +145,16 @@ def observe(n):
     de = n.get_definition_end_position()
     rec = {'ev': 'name', 'line': line, 'col': col, 'name': [ord(c) for c in n.name],
            'ds': [list(ds)] if ds is not None else [], 'de': [list(de)] if de is not None else [],
-           'lc': [ord(c) for c in n.get_line_code()]}
+           'lc': [ord(c) for c in n.get_line_code()],
+           'exact': []}       # [v]: reported by the Script whose own buffer is version v of the file (set by the caller)
     return ('rec', rec, {'file': str(mp), 'shape': shape_of(n), 'name': n.name})
+
+
+def files_header(order, versions):
+    """The "files" event of a trace: order = paths in file-index order, versions = path -> [texts]
+    (vers[0] exists when the trace starts; the others come into existence by write/buffer events)."""
+    return {'ev': 'files', 'files': [{'vers': [{'text': [ord(c) for c in t], 'starts': line_starts(t)}
+                                               for t in versions[p]]} for p in order]}
 
 
 def has_error_nodes(module_node):
